@@ -267,6 +267,8 @@ class Interp:
                 if n == "self":
                     return V("self")
                 raise Unanalysable(line, "unknown identifier %s" % n)
+            if segs in (["NonZeroUsize", "MIN"], ["std", "num", "NonZeroUsize", "MIN"], ["core", "num", "NonZeroUsize", "MIN"]):
+                return V("nz", K(1))  # the constant NonZeroUsize::MIN is 1
             # enum variant without payload: State::Main, Token::…
             return self.variant(segs, [], line)
         if k == "Call":
@@ -396,6 +398,21 @@ class Interp:
             return self.block(e["block"], env, depth)
         if k == "Tuple" and not e["elems"]:
             return V("unit")
+        if k == "Macro" and e.get("name") == "matches" and e.get("mexpr") is not None and e.get("mpat") is not None:
+            # matches!(c, 'a'..='z' | '_')  on the character under examination
+            v = self.expr(e["mexpr"], env, depth)
+            if isinstance(v, V) and v.t == "char":
+                hit = self.pat_matches_char(e["mpat"], v.a[0], line)
+                if hit and e.get("mguard") is not None:
+                    env2 = dict(env)
+                    if e["mpat"]["k"] == "PIdent":
+                        env2[e["mpat"]["name"]] = v
+                    g = self.expr(e["mguard"], env2, depth)
+                    if not (isinstance(g, V) and g.t == "bool"):
+                        raise Unanalysable(line, "matches! guard is not a boolean: %r" % g)
+                    return g
+                return V("bool", bool(hit))
+            raise Unanalysable(line, "matches! on %r" % v)
         raise Unanalysable(line, "unsupported expression %s: %s" % (k, unparse(e)[:60]))
 
     def variant(self, segs, args, line):
@@ -583,6 +600,9 @@ class Interp:
             m = re.match(r"^'(.)'\s*\.\.=\s*'(.)'$", p["src"])
             if m:
                 return m.group(1) <= c <= m.group(2)
+            lo, hi = p.get("lo"), p.get("hi")
+            if lo and hi and lo.get("k") == "Lit" and hi.get("k") == "Lit" and lo["lit"]["t"] == "char" and hi["lit"]["t"] == "char" and len(c) == 1:
+                return lo["lit"]["v"] <= c <= hi["lit"]["v"] if p.get("inclusive") else lo["lit"]["v"] <= c < hi["lit"]["v"]
         raise Unanalysable(line, "unsupported char pattern %s" % unparse(p))
 
 
